@@ -143,7 +143,7 @@ def strlen_sized(f, dst, src):
     return False
 
 
-def run(prog, scope_units=None, scope_funcs=None, rule="R-BUF", exceptions=EXCEPTIONS):
+def run(prog, scope_units=None, scope_funcs=None, rule="R-BUF", exceptions=EXCEPTIONS, floor=None):
     res = RuleResult(rule, "every copy or format into a buffer is bounded by the buffer (explicit size, fitting literal / integer "
                            "sources, no larger source array, or destination sized from strlen of the source)")
     cls = {}
@@ -216,5 +216,5 @@ def run(prog, scope_units=None, scope_funcs=None, rule="R-BUF", exceptions=EXCEP
                                             "%s: %s write into %s%s; the source is not bounded by anything visible in this function" % (
                                                 show(c)[:140], kind, dtxt, (" (%d bytes)" % dsz) if dsz else "")))
     res.counts["auto_discharged_by"] = cls
-    res.floor("buffer-writing call sites", res.obligations, 50 if not (scope_units or scope_funcs) else 5)
+    res.floor("buffer-writing call sites", res.obligations, floor if floor is not None else (50 if not (scope_units or scope_funcs) else 5))
     return res
